@@ -57,6 +57,18 @@ func decorateFieldConds(p *Program, dt, at *types.Named, in, out, prefix string,
 			}
 			conds = append(conds, [2]string{label + ".len", fmt.Sprintf("len(%s) == len(%s)", outF, inF)})
 			conds = append(conds, [2]string{label + ".elems", fmt.Sprintf("forall i int :: 0 <= i && i < len(%s) ==> has(f.Dst.Nodes, %s[i]) && f.Dst.Nodes[%s[i]] == %s[i]", inF, inF, inF, outF)})
+		case fcObject:
+			// C18: the counterpart through the object / scope map
+			m := "f.Dst.Objects"
+			if strings.HasSuffix(f.Type().String(), "Scope") {
+				m = "f.Dst.Scopes"
+			}
+			conds = append(conds, [2]string{"graph!" + label, fmt.Sprintf("%s == nil ? %s == nil : has(%s, %s) && %s[%s] == %s", inF, outF, m, inF, m, inF, outF)})
+		case fcMap:
+			if f.Name() == "Imports" {
+				conds = append(conds, [2]string{"graph!" + label + ".names", fmt.Sprintf("forall k string :: has(%s, k) == has(%s, k)", outF, inF)})
+				conds = append(conds, [2]string{"graph!" + label + ".members", fmt.Sprintf("forall k string :: has(%s, k) && %s[k] != nil ==> has(f.Dst.Objects, %s[k]) && %s[k] == f.Dst.Objects[%s[k]]", inF, inF, inF, outF, inF)})
+			}
 		case fcValue, fcOther:
 			switch {
 			case sortOfSafe(f.Type()) == SBool && isTokenPos(aft):
@@ -97,6 +109,10 @@ func decorateNodeOpts(p *Program, nt nodeType) *UnitOpts {
 		for _, c := range decorateFieldConds(p, nt.Named, at, "$in", "$out", "", consulted) {
 			if nt.Name == "FuncDecl" && c[0] == "Type.Func.flag" {
 				continue // a declaration always has the keyword: out.Type.Func is set to true
+			}
+			if strings.HasPrefix(c[0], "graph!") {
+				ex.obligeSpec(exitEnv, name+"#graph:"+c[0][6:], "schema", g, normal+" ==> ("+c[1]+")", nil)
+				continue
 			}
 			ex.obligeSpec(exitEnv, name+"#fields:"+c[0], "schema", g, normal+" ==> ("+c[1]+")", nil)
 		}
